@@ -19,7 +19,11 @@ UNIT_RE = re.compile(r'^(.*)\.(CurrentUnits|PreferredUnits)\.value$')
 
 
 def load_spec():
-    return json.loads(SPEC_PATH.read_text())
+    spec = json.loads(SPEC_PATH.read_text())
+    from gen import c09_report as gen
+    LITS.clear()
+    LITS.update(gen.lit_chunks(spec))
+    return spec
 
 
 # ---------------------------------------------------------------------------------------------------------
@@ -192,7 +196,8 @@ class SpecError(Exception):
 
 
 class Renderer:
-    def __init__(self, spec, snap):
+    def __init__(self, spec, snap, tag='r'):
+        self.tag = re.sub(r'[^A-Za-z0-9]', '', str(tag))
         import geophires_x
         from geophires_x import OptionList
         self.spec = spec
@@ -226,12 +231,12 @@ class Renderer:
     def series_name(self, arr):
         key = arr.tobytes()
         if key not in self.series:
-            self.series[key] = (f's{len(self.series)}', '[' + '; '.join(c09fmt.fl(x) for x in arr.tolist()) + ']')
+            self.series[key] = (f'ser_{self.tag}_{len(self.series)}', '[' + '; '.join(c09fmt.fl(x) for x in arr.tolist()) + ']')
         return self.series[key][0]
 
-    def lets(self):
-        """`let s0 := [...] in` prefix binding every series the terms of this run refer to"""
-        return ''.join(f'let {n} := {lit} in\n' for n, lit in self.series.values())
+    def defs(self):
+        """top-level definitions of every series the terms of this run refer to"""
+        return ''.join(f'Definition {n} : list fl := {lit}.\n' for n, lit in self.series.values())
 
     def ev(self, src):
         if 'datetime' in src or 'time.time' in src or 'model.tic' in src:
@@ -486,7 +491,12 @@ def scaled_by_100(src):
 # ---------------------------------------------------------------------------------------------------------
 # Coq terms
 # ---------------------------------------------------------------------------------------------------------
+LITS = {}     # filled by load_spec(): literal chunk -> constant name
+
+
 def seg_term(s):
+    if s[0] == 'lit' and s[1] in LITS:
+        return f'Lit {LITS[s[1]]}'
     if s[0] == 'lit':
         return f'Lit {qconv.coq_bytes(s[1])}'
     return f'Fld K{s[1]} {s[2]} {s[3]}'
@@ -498,6 +508,12 @@ def line_parts(items, plain=False):
     segs, vals = [], []
     buf = ''
     for it in items:
+        if it['k'] == 'lit' and it['s'] in LITS:      # a literal of the specification: compiled constant of Gen/ReportLits.v
+            if buf:
+                segs.append(f'Lit {qconv.coq_bytes(buf)}')
+                buf = ''
+            segs.append(f'Lit {LITS[it["s"]]}')
+            continue
         if it['k'] in ('lit', 'txt'):
             buf += it['s']
             continue
@@ -548,6 +564,11 @@ def table_cols(tab, plain=False):
 def table_term(tab, actual_rows, plain=False):
     segs = '; '.join(seg_term(s) for s in tab['segs'])
     rows = '; '.join(f'({qconv.coq_bytes(r)})%string' for r in actual_rows)
+    if plain:   # the table over plain values (nan / inf / -0.0 included), every cell as the harness computed it
+        n, k = tab['n'], tab['k']
+        cols = ';\n   '.join('[' + '; '.join(c09fmt.fval(x) if j % k == 0 and j // k < n else 'NaN' for j, x in enumerate(col)) + ']'
+                              for col in tab['cols'])
+        return f'chk_table {n} {tab["off"]} {k} [{segs}]\n  [{cols}]\n  [{rows}]'
     return f'chk_etable {tab["n"]} {tab["off"]} {tab["k"]} [{segs}]\n  [{table_cols(tab, plain)}]\n  [{rows}]'
 
 
